@@ -52,3 +52,29 @@ Proof.
     intros cl Hin. rewrite <- (firstn_skipn k (nth t progs [])). apply in_or_app. left. exact Hin.
   - intros Hf. fold g in Hfin. rewrite (Hfin t Hf). apply Hext. auto.
 Qed.
+(** * the class of changes "serve a cached error of some kinds" under concurrency
+
+    [step_gen serve] is [step] with the decision "return an error found in the cache as it is?" left open ([step]
+    = never, the code).  For every error kind k of the harness' kind codes (1 other / "Recursive reference", 2 NullRef,
+    3 FreeObject, 4 MissingEntry, 5 EOF, 6 UnspecifiedXRefEntry, 7 PageOutOfBounds, 8 MaxDepth, 9 InvalidPassword,
+    10 UnexpectedPrimitive, 11 parse error) the variant that serves cached errors of kind k is wrong: thread 0 loads
+    reference 3 as type 1 and fails with kind k; thread 1, which loads the same reference as type 2 (alone: the
+    value 7), arrives while thread 0 computes, waits on InProcess, receives the published error — and returns it.
+    (The sequential theorem [serving_cached_errors_refuted] of Cache/Proofs.v is for an arbitrary predicate.) *)
+Definition error_kinds : list N := [1; 2; 3; 4; 5; 6; 7; 8; 9; 10; 11].
+
+Theorem conc_serving_cached_errors_refuted : forall k : N, In k error_kinds ->
+  let serve := fun e : N => e =? k in
+  let prog := kind_prog k in
+  let c := mkCcfg true true true in
+  let g := fold_left (step_gen c prog serve) [0; 0; 1; 1; 0; 0; 0; 1; 1; 1; 1; 1]%nat (ginit [[(1, 3)]; [(2, 3)]]) in
+  acyclic prog (fun _ => O) /\ finished g 1%nat = true /\
+  results (threads g 1%nat) = [Err k] /\ fst (get no_cache prog 2 [] 2 3 init) = Ok 7.
+Proof.
+  intros k Hk.
+  assert (Hac : forall k', acyclic (kind_prog k') (fun _ => O)).
+  { intros k' ty r. unfold kind_prog. destruct (ty =? 1); exact I. }
+  unfold error_kinds in Hk. cbn [In] in Hk.
+  repeat (destruct Hk as [<-|Hk]; [split; [apply Hac|vm_compute; repeat split; reflexivity]|]).
+  contradiction.
+Qed.
